@@ -93,10 +93,7 @@ func (i *Inflight) GetAll(immediate bool) []packets.Packet {
 // This typically occurs when the quota has been exhausted, and we need to wait until new quota
 // is free to continue sending.
 func (i *Inflight) NextImmediate() (packets.Packet, bool) {
-	i.RLock()
-	defer i.RUnlock()
-
-	m := i.GetAll(true)
+	m := i.GetAll(true) // GetAll takes the read lock itself
 	if len(m) > 0 {
 		return m[0], true
 	}
